@@ -656,7 +656,9 @@ def _sig(e, params_positional=True):
         return "%s(%s)" % (k, ", ".join(_sig(x) for x in e[1]))
     if k == "phi":
         return "phi(%s)" % " | ".join(sorted(_sig(x) for x in e[1]))
-    if k in ("try", "elem", "next", "branch", "discr", "mutated"):
+    if k == "mutated":
+        return _sig(e[1])          # "was lent out mutably since" is bookkeeping of the recovery, not part of the value's identity
+    if k in ("try", "elem", "next", "branch", "discr"):
         return "%s(%s)" % (k, _sig(e[1]))
     if k == "index":
         return "%s[%s]" % (_sig(e[1]), _sig(e[2]))
@@ -995,6 +997,45 @@ def effect_sites(prog, body, *suffixes):
             if e[0] == "call" and any(isinstance(a, tuple) and mir.strip(a)[0] == "closure" and mir.strip(a)[1] == c.nname for a in e[2]):
                 out.append((bi, "closure", c))
     return out
+
+
+def is_add_op(prog, x):
+    """the accumulation step of a sum: a closure |a, b| a (saturating|wrapping|checked)+ b, or the function item itself"""
+    x = mir.strip(x)
+    if x[0] == "fn":
+        return x[1].split("::")[-1] in ("saturating_add", "wrapping_add", "add")
+    if x[0] == "closure":
+        fc = prog.body(x[1])
+        fr = ret_assignments(fc) if fc is not None else []
+        return len(fr) == 1 and sig(arith_nf(fr[0][2])) in ("Add($2, $3)", "Add($3, $2)")
+    return False
+
+
+def sum_over(prog, body, e, batch="$3"):
+    """if `e` is Σ term(x) for x in <batch> — spelled fold(map(batch, |x| term), 0, +), map(..).sum(), or an accumulator loop
+    `let mut t = 0; for x in batch { t = t + term }` — return sig(term) with the element written `@`; else None"""
+    e = mir.strip(e)
+    if e[0] == "call" and e[1].split("::")[-1] in ("fold", "sum") and e[2] and is_call(mir.strip(e[2][0]), "Iterator::map"):
+        m = mir.strip(e[2][0])
+        if sig(mir.strip(m[2][0])) != batch or mir.strip(m[2][1])[0] != "closure":
+            return None
+        if e[1].split("::")[-1] == "fold" and not (const_val(e[2][1]) == 0 and is_add_op(prog, e[2][2])):
+            return None
+        mc = prog.body(mir.strip(m[2][1])[1])
+        rr = ret_assignments(mc) if mc is not None else []
+        if len(rr) != 1:
+            return None
+        return sig(novers(rr[0][2])).replace("$2", "@")
+    if e[0] == "phi" and len(e[1]) == 2:
+        z = [a for a in e[1] if const_val(a) == 0]
+        u = [a for a in e[1] if const_val(a) is None]
+        if len(z) == 1 and len(u) == 1:
+            nf = arith_nf(u[0])
+            if nf[0] == "bin" and nf[1] == "Add":
+                terms = [t for t in (nf[2], nf[3]) if ("elem(%s)" % batch) in sig(t)]
+                if len(terms) == 1:
+                    return sig(novers(terms[0])).replace("elem(%s)" % batch, "@")
+    return None
 
 
 def strip_unwrap(e):
